@@ -156,13 +156,19 @@ theorem tie_serveHTTPShape :
 
 /-- the context handed to the work is the one returned by `context.WithTimeout(r.Context(), h.dt)`; the work writes
 to `tw`, not `w`; exempt requests get `w, r` untouched; the timeout branch writes 499 for Canceled else 503, then the reason,
-then sets `timedOut` -/
+then sets `timedOut`; `panicChan` is buffered (capacity 1: a handler that panics after the select has been left
+does not block, model: `panicChan : Option Nat`), `done` is closed (not sent on), the re-raised value is the received one -/
 def expected_serveHTTPFlow : List String := [
   "h.handler.ServeHTTP(w, r)",
   "ctx, cancelCtx := context.WithTimeout(r.Context(), h.dt)",
   "r = r.WithContext(ctx)",
+  "done := make(chan struct{})",
   "tw := &timeoutWriter{ w: w, h: make(http.Header), req: r, code: http.StatusOK, }",
+  "panicChan := make(chan any, 1)",
+  "panicChan <- p",
   "h.handler.ServeHTTP(tw, r)",
+  "close(done)",
+  "panic(p)",
   "dst[k] = vv",
   "w.WriteHeader(tw.code)",
   "w.Write(tw.wbuf.Bytes())",
